@@ -249,6 +249,9 @@ def run_case(case):
         s2 = copy.deepcopy(spec)
         for c in s2["nl"]:
             m = len(c["comps"])
+            for a in c.pop("cargs", []):
+                c["comps"] = [{"kind": "shift", "base": cc, "add": a}
+                              for cc in c["comps"]]
             c["lb"] = [0.0] * m
             c["ub"] = [0.0] * m if c["form"] == "dict_eq" else [math.inf] * m
             c["form"] = "nlc"
